@@ -77,8 +77,28 @@ pub fn check_push(kind: u8, s: usize, c: usize, r: usize, item: usize) {
     vcover!(!accepted, "rejected reachable");
 }
 
-#[cfg(kani)]
-#[kani::proof]
-fn stride_push_contract() {
-    check_push(kani::any(), kani::any(), kani::any(), kani::any(), kani::any());
+fn run_push(v: &[u64]) {
+    check_push(v[0] as u8, v[1] as usize, v[2] as usize, v[3] as usize, v[4] as usize)
+}
+fn pre_push_v(v: &[u64]) -> bool {
+    v[0] < 4 && pre_push(v[0] as u8, v[1] as usize, v[2] as usize, v[3] as usize)
+}
+fn run_index(v: &[u64]) {
+    check_index(v[0] as u8, v[1] as usize, v[2] as usize, v[3] as usize, v[4] as usize)
+}
+fn pre_index_v(v: &[u64]) -> bool {
+    v[0] < 4 && pre_index(v[0] as u8, v[1] as usize, v[2] as usize, v[3] as usize, v[4] as usize)
+}
+fn doms() -> Vec<Vec<u64>> {
+    let b = crate::boundary();
+    vec![vec![0, 1, 2, 3], b.clone(), b.clone(), b.clone(), b]
+}
+
+pub fn harnesses() -> Vec<crate::H> {
+    vec![
+        crate::H { name: "stride_push_contract", props: &["C05", "C19"], nargs: 5, pre: pre_push_v, doms, run: run_push, panic_ok: false,
+            bound: "any well-formed Stride state and any item, over a 23-value boundary alphabet per usize argument (counterexample search only; the proof is Verus')", kani: false },
+        crate::H { name: "stride_index_contract", props: &["C05"], nargs: 5, pre: pre_index_v, doms, run: run_index, panic_ok: false,
+            bound: "any well-formed Stride state and any in-bounds position, over a 23-value boundary alphabet per usize argument (counterexample search only)", kani: false },
+    ]
 }
